@@ -8,6 +8,7 @@ from vp.ref import conv as refconv
 
 PROPERTY = "C04"
 RULE = (
+    "(extended) data and noise are expressed in flux units of 2**k, k in {-30,-10,0,8,12,16,20} (absolute thresholds on noise-weighted terms only bite at large noise); PSFs include whole-number kernels; sub-check shared-w_tilde: one WTildeImaging / convolver object shared (DatasetInterface or Preloads) by inversions of 2-4 different data vectors, each checked against its own normal equations. "
     "Hypothesis scenarios: ring-padded masks (inner part up to 5x5, holes / several components), odd PSFs 1..5 per "
     "axis (square and non-square, non-negative / signed / sparse / normalised), data of any sign, positive noise, "
     "1..3 linear objects in generated order drawn from {rectangular mapper, Delaunay mapper, function list with a "
